@@ -37,22 +37,22 @@ UNREPRODUCED_IS_BENIGN = True      # a recorded conflict that no interleaving ca
 
 
 def bounds(tier):
-    return {"scaffolds": "(3,), (2,2)" if tier == "quick" else "(3,), (2,2), (2,3), (3,)+plain dimension", "N": 2, "E": 2,
+    return {"scaffolds": "(3,), (2,)+(2,), (3,)+plain dimension" if tier == "quick" else "(3,), (2,)+(2,), (3,)+plain, (2,3), plain+(3,)", "N": 2, "E": 2,
             "aggregates": "count, valid_count, sum, mean singly and in pairs", "cube types": "ccube, xcube"}
 
 
 def configs(tier, seed):
     out = []
-    scaffolds = [[[3]], [[2], [2]]]
+    scaffolds = [[[3]], [[2], [2]], [[3], []]]
     if tier == "thorough":
-        scaffolds += [[[2, 3]], [[3], []]]
+        scaffolds += [[[2, 3]], [[], [3]]]
     pairs = [["count"], ["sum"], ["mean"], ["valid_count"], ["sum", "mean"], ["count", "valid_count"]]
     i = seed
     for dims in scaffolds:
         for side in ("ccube", "xcube"):
             for aggl in pairs:
                 i += 1
-                if tier == "quick" and len(dims) > 1 and len(aggl) > 1:
+                if tier == "quick" and len(dims) > 1 and (len(aggl) > 1 or (dims == [[3], []] and aggl[0] not in ("sum", "count"))):
                     continue
                 out.append(C03._base(2, dims, 2, [i % 2] * len(dims), "sum", weights=["none", "array"][i % 2], ignore=bool((i // 2) % 2),
                                      fmt="nan", side=side, aggl=aggl, fact="nan"))
@@ -102,6 +102,20 @@ def reachable_arrays(roots, depth=5):
     return out
 
 
+def _cell_ids(f):
+    out = {}
+    for name, cell in zip(f.__code__.co_freevars, f.__closure__ or ()):
+        try:
+            out[name] = id(cell.cell_contents)
+        except ValueError:
+            out[name] = None
+    return out
+
+
+def _cell_changes(before, after):
+    return {k: (before.get(k), v) for k, v in after.items() if before.get(k) != v}
+
+
 def _has(cell):
     try:
         cell.cell_contents
@@ -127,6 +141,7 @@ def make_pool(rec, shared):
             excs = []
             for t, it_ in enumerate(items):
                 before = [(obj, dict((k, id(v)) for k, v in vars(obj).items())) for obj in shared if hasattr(obj, "__dict__")]
+                cells_before = _cell_ids(f)
                 rec.task = t
                 try:
                     f(it_)
@@ -140,6 +155,10 @@ def make_pool(rec, shared):
                     for k, v in vars(obj).items():
                         if k not in ALLOW and snap.get(k) != id(v):
                             rec.attr_writes.setdefault(t, set()).add("%s.%s" % (type(obj).__name__, k))
+                # variables of the enclosing calculate() frame rebound by the task (shared by all tasks)
+                for name, (b, a) in _cell_changes(cells_before, _cell_ids(f)).items():
+                    if name not in ALLOW:
+                        rec.attr_writes.setdefault(t, set()).add("closure variable %s" % name)
             if excs:
                 raise excs[0]
             return []
